@@ -25,6 +25,29 @@ fn decode_and_check(t: &mut Tctx, a: &CrcAlgo, shape: &Shape, input: &[u8]) -> O
     t.st.nontrivial(fp_mix(fp(a.name.as_bytes()), fp(input)));
     let r = catch(|| with_shape(shape, || (a.take_from)(input)));
     let _ = take_strs();
+    // the remainder-dropping entry point must agree with the remainder-returning one
+    let r2 = catch(|| with_shape(shape, || (a.from)(input)));
+    let _ = take_strs();
+    let agree = match (&r, &r2) {
+        (Ok(Ok((v, _, _))), Ok(Ok(v2))) => v == v2,
+        (Ok(Err(e)), Ok(Err(e2))) => e == e2,
+        (Err(_), Err(_)) => true,
+        _ => false,
+    };
+    if !agree {
+        t.st.violation(
+            "C10:from_bytes-disagrees-with-take_from_bytes",
+            format!(
+                "{}: from_bytes_crc gave {:?} but take_from_bytes_crc gave {:?} on {}",
+                a.name,
+                r2.as_ref().map(|x| x.as_ref().map(|v| v.show()).map_err(err_label)),
+                r.as_ref().map(|x| x.as_ref().map(|v| v.0.show()).map_err(err_label)),
+                hexs(input)
+            ),
+            rp(a, shape, input),
+        );
+        return None;
+    }
     match r {
         Err(p) => {
             t.st.violation("C10:panic", format!("CRC-checked decoding panicked: {} ({}, input {})", p, a.name, hexs(input)), rp(a, shape, input));
@@ -317,7 +340,15 @@ pub fn run(cfg: &Cfg) -> Report {
                 // short frames for the exhaustive burst enumeration, ordinary values otherwise
                 let w = algos[ai].bytes * 8;
                 let exhaustive = w <= 16 && rep_i < 2.max(frames / 4);
-                let (shape, val) = if exhaustive || t.rng.chance(1, 2) {
+                let (shape, val) = if !exhaustive && rep_i % 5 == 4 {
+                    // a single block write of >= 32 bytes (str / bytes payload) inside a small struct
+                    let n = t.rng.range(32, 40);
+                    let shape = Shape::Struct("T0", vec![("f0", Shape::U8), ("f1", if rep_i % 2 == 0 { Shape::Str } else { Shape::Bytes }), ("f2", Shape::U16)]);
+                    let payload = if rep_i % 2 == 0 { Val::Str("k".repeat(n)) } else { Val::Bytes(t.rng.bytes(n)) };
+                    let val = Val::Struct("T0", vec![("f0", Val::U8(7)), ("f1", payload), ("f2", Val::U16(513))]);
+                    t.st.count("frames_with_block_write_ge_32");
+                    (shape, val)
+                } else if exhaustive || t.rng.chance(1, 2) {
                     let n = t.rng.range(1, if exhaustive { 6 } else { 24 });
                     super::ser::value_of_len(&mut t.rng, n)
                 } else {
@@ -367,5 +398,6 @@ pub fn run(cfg: &Cfg) -> Report {
     rep.floor("truncations", 20);
     rep.floor("soundness_invariant_checked", 5);
     rep.floor("decoded_back", 10);
+    rep.floor("frames_with_block_write_ge_32", 5);
     rep
 }
